@@ -143,9 +143,9 @@ pub fn run(ctx: &Ctx) -> Report {
     let mut rep = Report::new(ID, "exploration", ctx);
     rep.rule = "Cases: grammar-generated mapping ASTs weighted to overloads, repeated (obf,args,original) triples within and across classes, inline groups, methods with/without ranges, empty argument lists; header/field records never separate two methods with identical usable ranges (by construction). Oracle: by-params reference model from the AST (skip inlined callees = next record is a method with identical usable range; keep first of each triple per class block; last block of a name wins). Checked for the mapper with param index and for the cache on all (class, method, params) triples of the universe incl. unknown/near-miss values. Non-trivial = distinct (case, query) with non-empty model answer, or naming an entry removed by the inline filter / de-duplication.".into();
     rep.assumptions = vec!["cache buffers are 8-byte aligned".into(), "domain: non-empty names, numbers < 2^32-1".into()];
-    let n = ctx.cases(30_000, 400_000);
+    let n = ctx.cases(30_000, 1_200_000);
     rep.run_stage("ast", || map_case(&cfg()), n, check_case);
-    rep.run_stage("tall", || tall_case(&cfg()), ctx.cases(60, 800), check_case);
+    rep.run_stage("tall", || tall_case(&cfg()), ctx.cases(60, 2_400), check_case);
     let corpus = corpus_ast_cases(12, 50, 6, ctx);
     rep.run_enum("corpus", &corpus, check_corpus);
     rep
